@@ -364,6 +364,19 @@ func callName(c *ssa.CallCommon) string {
 	if c.Value.Name() != "" && !strings.HasPrefix(c.Value.Name(), "t") {
 		return c.Value.Name()
 	}
+	// a function value loaded from a struct field is named after the field
+	switch v := c.Value.(type) {
+	case *ssa.UnOp:
+		if fa, ok := v.X.(*ssa.FieldAddr); ok && v.Op == token.MUL {
+			if st, ok := under(fa.X.Type()).(*types.Pointer).Elem().Underlying().(*types.Struct); ok {
+				return st.Field(fa.Field).Name()
+			}
+		}
+	case *ssa.Field:
+		if st, ok := under(v.X.Type()).(*types.Struct); ok {
+			return st.Field(v.Field).Name()
+		}
+	}
 	return "fn"
 }
 
